@@ -6,7 +6,7 @@ patch="$(readlink -f "$1")"; shift
 cd /verif
 if ! git -C /repo diff --quiet; then echo "refusing: /repo has uncommitted changes"; exit 2; fi
 keep="$(mktemp -d /dev/shm/fmlsim-evidence.XXXXXX)"; cp -a /verif/evidence/. "$keep"/
-restore() { git -C /repo checkout -- . ; cp -a "$keep"/. /verif/evidence/ ; rm -rf "$keep" ; }
+restore() { git -C /repo checkout -- . ; mkdir -p /verif/build; touch /verif/build/.stale ; cp -a "$keep"/. /verif/evidence/ ; rm -rf "$keep" ; }
 trap restore EXIT
 git -C /repo apply "$patch" || { echo "patch does not apply"; exit 2; }
 tier="${TIER:-quick}"
